@@ -562,6 +562,9 @@ func (h *HWorld) predictCell(c Cell) (string, *MService, string) {
 		if isHealthGet {
 			return "proxy-200", s, prefix
 		}
+		if s.MaxPause <= 0 {
+			return "status-504", s, prefix // a hold limit of zero has expired on arrival
+		}
 		return "held", s, prefix
 	}
 	if s.inRollout(c.Cookie) {
@@ -630,7 +633,7 @@ func (h *HWorld) checkObs(prop string, o *HObs, clauses map[string]bool) []Viola
 			case strings.HasPrefix(want, "301") || want == "503-tls" || strings.HasPrefix(got, "301") || (got == "503-tls" && want != "503-stopped"),
 				got == "503" && co.Cell.TLS && strings.HasPrefix(want, "fwd") && svc != nil && len(svc.Hosts) > 1:
 				kind = "tls-policy"
-			case want == "held" || want == "503-stopped" || want == "proxy-200" || got == "held":
+			case want == "held" || want == "503-stopped" || want == "proxy-200" || got == "held" || want == "status-504":
 				kind = "gate"
 			case strings.HasPrefix(want, "fwd") && strings.HasPrefix(got, "fwd"):
 				kind = "target-set"
